@@ -22,7 +22,7 @@ RULE = ('descriptor = seeded batch of scenarios; scenario = 1..8 distinct regist
         'header of those ports dispatched after every step.')
 ASSUMPTIONS = ['matching rule: (header port & port mask) == registered port and (header channel & channel mask) == '
                'registered channel']
-REQUIRED = ['mon.packets', 'mon.must_deliveries', 'mon.mutations_executed', 'mon.raising_callbacks',
+REQUIRED = ['mon.removals_of_absent_registrations', 'mon.packets', 'mon.must_deliveries', 'mon.mutations_executed', 'mon.raising_callbacks',
             'mon.caller_calls', 'mon.self_removals', 'mon.shared_callback_removals',
             'mon.shared_callback_multi_pattern_deliveries', 'mon.deliveries_through_the_public_wrappers']
 
@@ -117,45 +117,68 @@ def run_scenario(ctx, regs, script, raising, headers, label):
     extra_regs = []
     keep = []
 
+    # The harness table is the reference model: it is updated for every scripted operation.  The library call is made
+    # as an application would make it; when a library call raises, the rest of that callback's script is not carried
+    # out on the library (the application's callback has been aborted) while the model still holds what the
+    # application asked for - so the difference shows up in the deliveries.
+    live = {'on': True}
+
     def add(rid):
         r = allregs[rid]
+        table.append(rid)
+        state['added_now'].add(rid)
+        if not live['on']:
+            return
         if r['api'] == 'port':
             handler.add_port_callback(r['port'], cbs[rid])
         else:
             handler.add_header_callback(cbs[rid], r['port'], r['chan'], r['pmask'], r['cmask'])
-        table.append(rid)
-        state['added_now'].add(rid)
 
     def remove(rid):
         r = allregs[rid]
-        if rid not in table:
+        present = rid in table
+        if present:
+            table.remove(rid)
+            state['removed_now'].add(rid)
+        else:
+            # removing what is not (or no longer) registered changes nothing
+            state['absent_removals'] = state.get('absent_removals', 0) + 1
+        if not live['on']:
             return
         if r['api'] == 'port':
             handler.remove_port_callback(r['port'], cbs[rid])
         else:
             handler.remove_header_callback(cbs[rid], r['port'], r['chan'], r['pmask'], r['cmask'])
-        table.remove(rid)
-        state['removed_now'].add(rid)
 
     def mk(rid):
         def cb(pk):
             log.append((pk._uid, rid))
             invoc[rid] = invoc.get(rid, 0) + 1
+            failed = None
             for (actor, nth, op, arg) in script:
                 if actor == rid and nth == invoc[rid]:
                     state['mut'] += 1
-                    if op == 'remove_self':
-                        state['selfrem'] += 1
-                        remove(rid)
-                    elif op == 'remove':
-                        remove(arg)
-                    elif op == 'add':
-                        if arg not in table:
-                            add(arg)
-                    elif op == 'add_remove':
-                        if arg not in table:
-                            add(arg)
+                    try:
+                        if op == 'remove_self':
+                            state['selfrem'] += 1
+                            remove(rid)
+                        elif op == 'remove':
                             remove(arg)
+                        elif op == 'add':
+                            if arg not in table:
+                                add(arg)
+                        elif op == 'add_remove':
+                            if arg not in table:
+                                add(arg)
+                                remove(arg)
+                    except Exception as e:  # noqa
+                        if failed is None:
+                            failed = e
+                            live['on'] = False
+                            state['library_call_raised'] = repr(e)[:120]
+            live['on'] = True
+            if failed is not None:
+                raise failed
             if raising is not None and raising == rid:
                 raise ValueError('scripted failure in callback %d' % rid)
         cb.__name__ = 'cb%d' % rid
@@ -281,6 +304,9 @@ def run_scenario(ctx, regs, script, raising, headers, label):
         ctx.violate('dispatch:packet_received-sequence-wrong', {'label': label, 'got': allpk[:20]})
     ctx.count('mon.mutations_executed', state['mut'])
     ctx.count('mon.self_removals', state['selfrem'])
+    ctx.count('mon.removals_of_absent_registrations', state.get('absent_removals', 0))
+    if state.get('library_call_raised'):
+        ctx.count('obs.add_or_remove_call_raised_inside_a_callback')
     if raising is not None and invoc.get(raising):
         ctx.count('mon.raising_callbacks')
 
